@@ -2,6 +2,7 @@ import Driver.Util
 import NutsModel.C12.PE
 import NutsModel.C12.Ecma
 import NutsModel.C12.Consumer
+import NutsModel.C12.Formats
 import NutsModel.Facts.C12
 open Lean Nuts.Drv Nuts.C12 Nuts
 
@@ -200,6 +201,18 @@ def parseVOp (st : St) (j : Json) : Option (Envelope × Decoder × List Mapping 
   let sub := (jArr j "sub").map parseMapping
   some (env, decode, sub, reOf (st.re ++ (jArr j "re").filterMap parseRe))
 
+/-- a JSON object of objects of string arrays as a Go `map[string]map[string][]string` (`null` = nil map) -/
+def parseFMap (j : Json) : Option FMap :=
+  match toJ j with
+  | .obj fs => some (fs.map fun (k, v) =>
+      (k, match v with
+          | .obj ps => ps.map (fun (p, vs) => (p, match vs with | .arr l => l.filterMap (fun x => match x with | .str s => some s | _ => none) | _ => []))
+          | _ => []))
+  | _ => none
+
+def showFMap (m : FMap) : String :=
+  showAssoc (m.map fun (k, ps) => (k, showAssoc (ps.map fun (p, vs) => (p, "[" ++ String.intercalate "," vs ++ "]"))))
+
 def step (st : St) (j : Json) : St × List String :=
   match jStr j "op" with
   | "reject" => ({ st with live := false }, ["reject"])
@@ -262,6 +275,16 @@ def step (st : St) (j : Json) : St × List String :=
         | .err e => ("err:" ++ e, "-", "-")
         | .panic s => ("panic:" ++ s, "-", "-")
       (st, [s!"consumer next0={n0} other={rOther} f1={r1} next1={n1} again={rAgain} f2={r2} next2={n2} cm={cmS} v1={v1} v2={v2}"])
+  | "formats" =>
+    -- presenter.buildSubmission's format negotiation: node defaults (data: the real oauth.DefaultOpenIDSupportedFormats())
+    -- ∩ verifier metadata ∩ definition format, then ChooseVPFormat
+    let defaults := match parseFMap (jObj j "defaults") with | some m => m | none => []
+    let verifier := parseFMap (jObj j "verifier")
+    let pdf := parseFMap (jObj j "pdFormat")
+    let c1 := (openIDSupportedFormats (some defaults)).matchWith (openIDSupportedFormats verifier)
+    let c2 := match pdf with | some pf => c1.matchWith (difClaimFormats (some pf)) | none => c1
+    let chosen := presenterFormat Nuts.Facts.C12.vpFormatPreference defaults verifier pdf
+    (st, [s!"formats chosen={chosen} step1={showFMap (match c1.map with | some m => m | none => [])} step2={showFMap (match c2.map with | some m => m | none => [])}"])
   | "vpformat" =>
     (st, ["vpformat " ++ chooseVPFormat Nuts.Facts.C12.vpFormatPreference (jStrs j "supported")])
   | "fields" =>
